@@ -55,6 +55,11 @@ func setupPrefix(args ...string) (handler.Handler6, error) {
 		return nil, fmt.Errorf("Invalid pool subnet: %v", err)
 	}
 
+	if len(prefix.IP) != net.IPv6len || prefix.IP.To4() != nil {
+		// prefixes are delegated over DHCPv6 only; the allocator works on 128-bit addresses
+		return nil, fmt.Errorf("Invalid pool subnet: %s is not an IPv6 prefix", args[0])
+	}
+
 	allocSize, err := strconv.Atoi(args[1])
 	if err != nil || allocSize > 128 || allocSize < 0 {
 		return nil, fmt.Errorf("Invalid prefix length: %v", err)
